@@ -158,6 +158,32 @@ func (w *world) prove(op WOp) {
 	w.stats.Inc("probe.commit") // counts as the committed observation point for non-triviality
 }
 
+// hashedBody returns the byte string a branch or short node hashes (nil for other kinds).
+func hashedBody(b []byte) []byte {
+	p := decodeNode(b)
+	if p == nil {
+		return nil
+	}
+	switch {
+	case p.Branch != nil:
+		var sum uint64
+		body := make([]byte, 8, 8+16*32)
+		for i := 0; i < 16; i++ {
+			if i < len(p.Branch.Children) && len(p.Branch.Children[i]) >= 40 {
+				body = append(body, p.Branch.Children[i][:32]...)
+				sum += weightAt(p.Branch.Children[i])
+			} else {
+				body = append(body, refwmpt.Empty...)
+			}
+		}
+		binary.BigEndian.PutUint64(body[:8], sum)
+		return body
+	case p.Short != nil && len(p.Short.Value) == 40:
+		return append(append([]byte{}, p.Short.Key...), p.Short.Value[:32]...)
+	}
+	return nil
+}
+
 func weightAt(blob []byte) uint64 { return binary.BigEndian.Uint64(blob[32:40]) }
 func setWeight(blob []byte, w uint64) []byte {
 	c := append([]byte{}, blob...)
@@ -274,6 +300,19 @@ func (w *world) tamper(op WOp) {
 		}
 	case "block":
 		st.asked = 1 + uint64(((op.B%int(st.total))+int(st.total))%int(st.total))
+	case "retype":
+		// present a branch (or short) node as a VALUE node whose weight||value bytes are exactly the
+		// bytes the original node hashes: there is no domain separation between node kinds
+		for k := 0; k < n; k++ {
+			j := (idx + k) % n
+			body := hashedBody(st.nodes[j])
+			if len(body) < 9 {
+				continue
+			}
+			nv := &wmpt.PersistNodeBase{Value: &wmpt.PersistNodeValue{Value: body[8:], Weight: binary.BigEndian.Uint64(body[:8])}}
+			st.nodes = append(append([][]byte{}, st.nodes[:j]...), encodeNode(nv))
+			break
+		}
 	}
 	if !bytes.Equal(before, encodeProof(st.nodes)) || kind == "block" {
 		st.tampers++
@@ -345,6 +384,12 @@ func effHashed(b []byte) string {
 	return "other:" + string(b)
 }
 
+func be8(w uint64) []byte {
+	var b [8]byte
+	binary.BigEndian.PutUint64(b[:], w)
+	return b[:]
+}
+
 func childWeights(b []byte) string {
 	p := decodeNode(b)
 	if p == nil || p.Branch == nil {
@@ -377,6 +422,19 @@ func (w *world) forgeryKind(st *c10, returned []byte) string {
 		first += st.sorted[i].Weight
 	}
 	if owner == nil {
+		// the value of no key: is it the hashed body of an honest branch/short node presented as a value node?
+		for _, nb := range st.nodes {
+			p := decodeNode(nb)
+			if p == nil || p.Value == nil || !bytes.Equal(p.Value.Value, returned) {
+				continue
+			}
+			presented := append(be8(p.Value.Weight), p.Value.Value...)
+			for _, hb := range append(append([][]byte{}, st.bank...), st.honest...) {
+				if body := hashedBody(hb); body != nil && bytes.Equal(body, presented) {
+					return "retyped-node"
+				}
+			}
+		}
 		return "other:value-of-no-key"
 	}
 	_, proof, err := w.t.GetBlockProof(first)
